@@ -449,6 +449,232 @@ def _token_part(x):
     return best
 
 
+# --------------------------------------------------------------------------
+# verdicts kept in a bool local (rule d; also used by C14.d)
+# --------------------------------------------------------------------------
+
+_LIT = {'0': False, 'false': False, '1': True, 'true': True}
+
+
+def _whole_local(op):
+    """index of the local an operand copies / moves as a whole, else None"""
+    return op[1][0] if op[0] in ('c', 'm') and not op[1][1] else None
+
+
+def reach_tracking_bools(F, body, start, avoid=(), avoid_edges=()):
+    """Blocks reachable from block `start` (entered with nothing known) when the value of every bool local that was
+    assigned a literal on the way (or a copy / `!` of such a local) is remembered, and a switch on a remembered local
+    only takes the edge that value selects.  `let invalid = a || b || !c; if invalid {..}` lowers to `a -> invalid = true
+    -> JOIN; .. ; JOIN: switch invalid`: from the true edge of `a` only the true edge of the JOIN switch is taken, as
+    in `if a || b || !c {..}`.  A local whose address is taken mutably is never remembered; any other store to a local,
+    a call result stored in it, or the end of its storage forgets it.  Always a subset of body.reachable_from(start,
+    avoid, avoid_edges)."""
+    avoid = set(avoid)
+    never = describer(F, body).mut_borrowed
+    seen, out = set(), set()
+    stack = [(start, frozenset())]
+    while stack:
+        bb, env = stack.pop()
+        if bb in avoid or (bb, env) in seen:
+            continue
+        seen.add((bb, env))
+        if len(seen) > 40000:
+            return body.reachable_from(start, avoid=avoid, avoid_edges=avoid_edges)
+        out.add(bb)
+        e = dict(env)
+        blk = body.blocks[bb]
+        for s in blk['s']:
+            if s[0] in ('live', 'dead'):
+                e.pop(s[1], None)
+            elif s[0] == 'sd':
+                e.pop(s[1][0], None)
+            elif s[0] == '=':
+                l, proj = s[1]
+                v = None
+                if not proj and l not in never:
+                    rv = s[2]
+                    op, flip = (rv[1], False) if rv[0] == 'use' else ((rv[2], True) if rv[0] == 'un' and rv[1] == 'Not' else (None, False))
+                    if op is not None:
+                        if op[0] in ('c', 'm'):
+                            v = e.get(_whole_local(op))
+                        elif len(op) > 3 and op[3] == 'bool':
+                            v = _LIT.get(str(op[2]).lower())
+                        if v is not None and flip:
+                            v = not v
+                if v is None:
+                    e.pop(l, None)
+                else:
+                    e[l] = v
+        t = blk['t']
+        succ = list(body.succ[bb])
+        if t[0] == 'call':
+            dst = t[1].get('dst')
+            if dst:
+                e.pop(dst[0], None)
+        elif t[0] == 'switch':
+            v = e.get(_whole_local(t[1]))
+            if v is not None:
+                tgt = t[3]
+                for val, x in t[2]:
+                    if int(val) == int(v):
+                        tgt = x
+                succ = [tgt] if tgt in succ else succ
+        env2 = frozenset(e.items())
+        for x in succ:
+            if (bb, x) not in avoid_edges:
+                stack.append((x, env2))
+    return out
+
+
+def guard_protects_tracking(ctx, rule, instance, body, relpred, sites, what='', offsets=()):
+    """guard_protects (P4+edge: every protected block has a dominating guard with the stated relation from whose
+    violating edge it is unreachable without re-evaluating the guard), where "unreachable from the violating edge" takes
+    into account what the edge stores into a bool local that a later switch tests (reach_tracking_bools)."""
+    F = ctx.facts
+    edges = guard_edges(ctx, body, relpred, False, offsets=offsets)
+    if not edges:
+        ctx.bad(rule, instance + '/guard_missing', body, body.where(), '%s: no branch with the required relation found' % what)
+        return
+    sites = [s for s in sites if s in body.live_blocks()]
+    reach, domreach = {}, {}
+    bad = []
+    for s in sites:
+        covered = False
+        for br, truth, tgt in edges:
+            if not body.dominates(br.bb, s):
+                # `a || b` merged into a local: b's block no longer dominates the code behind `if local` in the plain CFG
+                # (the edge `a -> local = true -> if local` joins in between), but every path on which the local reads
+                # "pass" still runs over b's pass edge
+                kd = (br.bb, truth)
+                if kd not in domreach:
+                    domreach[kd] = reach_tracking_bools(F, body, 0, avoid_edges={(br.bb, br.target(0 if truth else 1))})
+                if s in domreach[kd]:
+                    continue
+            k = (br.bb, tgt)
+            if k not in reach:
+                reach[k] = body.reachable_from(tgt, avoid=[br.bb])
+                if any(x in reach[k] for x in sites):
+                    reach[k] = reach_tracking_bools(F, body, tgt, avoid=[br.bb])
+            if s not in reach[k]:
+                covered = True
+        if not covered:
+            bad.append(s)
+    br0 = edges[0][0]
+    ctx.check(not bad, rule, instance, body, br0.where(), '%s: %d protected site(s) only reachable over the pass edge of a dominating guard' % (what, len(sites)),
+              '%s: protected site blocks %s are not protected by a dominating guard with this relation' % (what, bad))
+
+
+def verdict_false_edges(F, body, c):
+    """(branch, block entered when call site c returned false) for every switch that tests the bool verdict of c:
+    the result itself (`if !c(..)`, `if c(..)`), or a bool local into which the result (or its negation) is merged with
+    literals that all select the same edge as `c returned false` does — `let invalid = a || b || !c(..); if invalid`
+    (true | true | !c: the literal alternatives read "invalid"), `let ok = a && b && c(..); if !ok`.  A literal that selects
+    the other edge would let the protected code run without the verdict: such a switch is not a test of the verdict."""
+    out = []
+    for br in branches(F, body):
+        inner, neg = peel_not(br.desc)
+        t = body.blocks[br.bb]['t']
+        if t[0] != 'switch':
+            continue
+        if inner[0] == 'call' and is_site(inner, c):
+            out.append((br, br.target(1 if neg else 0)))
+            continue
+        srcs = _bool_sources(F, body, t[1], br.bb, term_idx(body, br.bb))
+        pols = {n for k, x, n, _ in srcs if k == 'call' and x.bb == c.bb and x.f == c.f}
+        if len(pols) != 1:
+            continue
+        bad_val = False != pols.pop()           # value of the switch operand when c returned false
+        okc = True
+        for k, x, n, _ in srcs:
+            if k == 'call' and x.bb == c.bb and x.f == c.f:
+                continue
+            v = _LIT.get(str(x).lower()) if k == 'const' else None
+            if v is None or (v != n) != bad_val:
+                okc = False
+        if okc:
+            out.append((br, br.target(1 if bad_val else 0)))
+    return out
+
+
+def retry_tag_check_points(F, body, valid):
+    """blocks behind which the Retry integrity tag has been evaluated: the is_valid_retry call sites and the switches
+    testing their verdict (verdict_false_edges)"""
+    pts = {v.bb for v in valid}
+    for v in valid:
+        pts |= {br.bb for br, _ in verdict_false_edges(F, body, v)}
+    return pts
+
+
+def edges_where_relation(F, body, relpred):
+    """(branch, target) of every branch edge on which a relation satisfying relpred(op, a, b) certainly holds: the switch
+    operand is the comparison, or a bool merging the comparison with literals that cannot take this edge
+    (`let listed = match t { Ok(v) => a == v, Err(_) => false }; if listed`)"""
+    out = []
+    for br in branches(F, body):
+        inner, neg = peel_not(br.desc)
+        for truth in (True, False):
+            val = truth != neg
+            alts = [a for a in flat(inner) if not (a[0] == 'const' and _LIT.get(str(a[2]).lower()) == (not val))]
+            rels = [relation_on(a, val) for a in alts]
+            if alts and all(r is not None and relpred(*r) for r in rels):
+                out.append((br, br.target(1 if truth else 0)))
+    return out
+
+
+def _is_payload_chunks(x):
+    """exactly packet.payload.chunks(4), no adapter in between"""
+    return x[0] == 'call' and x[1] == '[T]::chunks' and len(x[3]) == 2 and _int_is(x[3][1], 4) \
+        and x[3][0][0] == 'field' and x[3][0][2] == 'payload' and x[3][0][1][0] == 'param' and x[3][0][1][2] == 'packet'
+
+
+def _chunk_of_scan(x):
+    """x is the loop variable of a scan over packet.payload.chunks(4): (<Chunks as Iterator>::next(chunks) as Some).0"""
+    return x[0] == 'field' and x[2] == '0' and x[1][0] == 'variant' and x[1][2] == 'Some' and x[1][1][0] == 'call' \
+        and x[1][1][1].endswith('Iterator>::next') and len(x[1][1][3]) == 1 and _is_payload_chunks(x[1][1][3][0])
+
+
+def _listed_version_of_chunk(x):
+    """u32::from_be_bytes((<[u8; 4]>::try_from(chunk) as Ok).0) for the chunk at hand"""
+    if not (x[0] == 'call' and x[1] == 'u32::from_be_bytes' and len(x[3]) == 1):
+        return False
+    y = x[3][0]
+    return y[0] == 'field' and y[2] == '0' and y[1][0] == 'variant' and y[1][2] == 'Ok' and y[1][1][0] == 'call' \
+        and y[1][1][1].endswith('TryFrom>::try_from') and len(y[1][1][3]) == 1 and _chunk_of_scan(y[1][1][3][0])
+
+
+def _vn_scan_loop_ok(F, body, vm):
+    """Version Negotiation, explicit loop: (i) a branch compares self.version with the version decoded from the chunk at
+    hand, and VersionMismatch is unreachable from its equal edge; (ii) VersionMismatch lies behind the None edge of the
+    scan's `next()` (all chunks were looked at); (iii) inside the loop every chunk reaches that comparison: from the Some
+    edge neither the next iteration, nor VersionMismatch, nor a return is reachable without passing the comparison,
+    except over the Err edge of the chunk's try_from (a chunk shorter than 4 bytes lists no version)."""
+    own = lambda x: x[0] == 'field' and x[2] == 'version' and x[1][0] == 'param' and x[1][1] == 1
+    eq = edges_where_relation(F, body, lambda o, a, b: o == 'Eq' and ((own(a) and _listed_version_of_chunk(b)) or (own(b) and _listed_version_of_chunk(a))))
+    if not eq or not vm:
+        return False
+    if any(v in reach_tracking_bools(F, body, tgt) for br, tgt in eq for v in vm):
+        return False
+    nxt = [br for br in branches(F, body) if br.desc[0] == 'discr' and br.desc[1][0] == 'call' and br.desc[1][1].endswith('Iterator>::next')
+           and len(br.desc[1][3]) == 1 and _is_payload_chunks(br.desc[1][3][0])]
+    if len(nxt) != 1:
+        return False
+    nb = nxt[0]
+    t_none, t_some = nb.target(STD_VARIANTS['Option']['None']), nb.target(STD_VARIANTS['Option']['Some'])
+    if t_none is None or t_some is None or t_none == t_some:
+        return False
+    if not all(edge_dominates(body, nb.bb, t_none, v) for v in vm):
+        return False
+    if not all(edge_dominates(body, nb.bb, t_some, br.bb) for br, _ in eq):
+        return False
+    err_edges = set()
+    for br in branches(F, body):
+        if br.desc[0] == 'discr' and br.desc[1][0] == 'call' and br.desc[1][1].endswith('TryFrom>::try_from') and len(br.desc[1][3]) == 1 and _chunk_of_scan(br.desc[1][3][0]):
+            err_edges.add((br.bb, br.target(STD_VARIANTS['Result']['Err'])))
+    skip = body.reachable_from(t_some, avoid={br.bb for br, _ in eq}, avoid_edges=err_edges)
+    goals = set(vm) | set(body.return_blocks()) | {nb.bb}
+    return not (skip & goals)
+
+
 def rule_d(ctx):
     F = ctx.facts
     pdp = ctx.pfn('Connection::process_decrypted_packet')
@@ -460,7 +686,9 @@ def rule_d(ctx):
     ctx.floor('d', 'retry_tag_check_sites', len(valid), 1)
     prot = [w.bb for w in st]
     # the update_initial_cid call of the Retry arm: the one whose block is dominated by the is_valid_retry call
-    prot += [c.bb for c in upd if any(pdp.dominates(v.bb, c.bb) for v in valid)]
+    # (or by the switch that tests its verdict kept in a bool local: `let invalid = .. || !is_valid_retry(..); if invalid`)
+    checked = retry_tag_check_points(F, pdp, valid)
+    prot += [c.bb for c in upd if any(pdp.dominates(x, c.bb) for x in checked)]
     prot += [c.bb for c in pdp.calls_to('StreamsState::retransmit_all_for_0rtt')]
     # counting the Retry as an authenticated packet (counter, idle timer, keep-alive) is a state change like the others:
     # EVERY on_packet_authenticated site of process_decrypted_packet must lie behind the gate, the token-length test, the
@@ -472,8 +700,11 @@ def rule_d(ctx):
     # (handle_packet does not count unprotected packets: d/every_processed_packet_is_counted_unprotected_not_counted_before_validation;
     # the count sites of this function lie behind the gate), so "no other packet of the server was accepted" reads
     # total_authed_packets == 0, and the violating relation is `0 < n` (`1 <= n`, `n != 0`)
-    guard_protects(ctx, 'd', 'retry_only_before_other_server_packets', pdp, _some_packet_counted, prot, what='total_authed_packets > 0', need_dom=False)
-    guard_protects(ctx, 'd', 'retry_needs_token', pdp, lambda o, a, b: o == 'Le' and D.has_const(b, 16) and 'len' in D.render(a), prot, what='payload.len() <= 16', need_dom=False)
+    # the guards may keep their joint verdict in a bool local (`let invalid = a > 0 || len <= 16 || !valid; if invalid`,
+    # `let acceptable = a == 0 && 16 < len && valid; if !acceptable`): guard_protects_tracking follows the literal stored on a
+    # guard's violating edge to the switch that tests the local
+    guard_protects_tracking(ctx, 'd', 'retry_only_before_other_server_packets', pdp, _some_packet_counted, prot, what='total_authed_packets > 0')
+    guard_protects_tracking(ctx, 'd', 'retry_needs_token', pdp, lambda o, a, b: o == 'Le' and D.has_const(b, 16) and 'len' in D.render(a), prot, what='payload.len() <= 16')
     # an accepted Retry counts itself, so that a second Retry (or a Version Negotiation) after it meets a closed gate
     # ("restarts the handshake once"): every Retry state change is dominated by, or always followed by, a counting site
     for w in st:
@@ -486,12 +717,9 @@ def rule_d(ctx):
                   'the Retry arm hands on_packet_authenticated a packet number (%s): a Retry has none, and a number recorded here was never checked against Dedup' % D.render(num)[:80])
     for c in valid:
         ok, found = True, False
-        for br in branches(F, pdp):
-            inner, neg = peel_not(br.desc)
-            if is_site(inner, c):
-                found = True
-                t_bad = br.target(1 if neg else 0)
-                ok = ok and all(p not in pdp.reachable_from(t_bad, avoid=[br.bb]) for p in prot) and all(pdp.dominates(br.bb, p) for p in prot)
+        for br, t_bad in verdict_false_edges(F, pdp, c):
+            found = True
+            ok = ok and all(p not in pdp.reachable_from(t_bad, avoid=[br.bb]) for p in prot) and all(pdp.dominates(br.bb, p) for p in prot)
         ok = ok and found
         ctx.check(ok, 'd', 'retry_needs_valid_integrity_tag', pdp, c.where(), 'is_valid_retry false edge reaches no Retry state change', 'Retry state changes are reachable without a valid integrity tag')
     srv = [br for br in branches(F, pdp) if br.desc[0] == 'call' and br.desc[1] == 'ConnectionSide::is_server']
@@ -503,7 +731,12 @@ def rule_d(ctx):
     guard_protects(ctx, 'd', 'vn_only_before_other_server_packets', pdp, _some_packet_counted, [c.bb for c in vm], what='total_authed_packets > 0', need_dom=False)
     sup = [br for br in branches(F, pdp, stop_named=True) if peel_not(br.desc)[0][0] == 'local' and peel_not(br.desc)[0][2] == 'supported']
     ok = bool(sup) and all(all(c.bb not in pdp.reachable_from(br.target(1)) for c in vm) for br in sup)
-    ctx.check(ok, 'd', 'vn_ignored_when_own_version_listed', pdp, pdp.where(), 'supported == true edge never reaches VersionMismatch', 'a Version Negotiation listing our version can end the connection')
+    # the same scan spelled as a loop: `for x in packet.payload.chunks(4) { if <x is self.version> { return Ok(()) } }`
+    how = 'supported == true edge never reaches VersionMismatch'
+    if not ok:
+        ok = _vn_scan_loop_ok(F, pdp, [c.bb for c in vm])
+        how = 'every 4-byte chunk of the payload is compared with self.version; the equal edge never reaches VersionMismatch, which lies behind the exhausted scan'
+    ctx.check(ok, 'd', 'vn_ignored_when_own_version_listed', pdp, pdp.where(), how, 'a Version Negotiation listing our version can end the connection')
     # every call of on_packet_authenticated (numbered packet or accepted Retry) counts: total_authed_packets += 1 is unconditional at its top
     opa = ctx.pfn('Connection::on_packet_authenticated')
     inc = [(w, v) for w, v in store_values(ctx, 'Connection', 'total_authed_packets', in_fn=opa)]
